@@ -460,6 +460,90 @@ def unroll_constant_tables(repo, mod, expr):
     return U().visit(copy.deepcopy(expr))
 
 
+def _wrap_in_decorator(repo, mod, dec, body, level):
+    """`dec` is a module-level decorator of the form
+
+        def dec(func):
+            [@functools.wraps(func)]
+            def wrapper(*args, **kwargs):
+                <statements with exactly one `return func(*args, **kwargs)`>
+            return wrapper
+
+    Returns the wrapper's statements with that return replaced by `body`
+    (None when the decorator has another form)."""
+    import copy
+    from sa import model as _m
+    if not isinstance(dec, ast.Name):
+        return None
+    d = mod.functions.get(dec.id)
+    if d is None or d.parent_func is not None or len(d.params()) != 1:
+        return None
+    fparam = d.params()[0]
+    stmts = _m.strip_docstring(d.node.body)
+    if len(stmts) != 2 or not isinstance(stmts[0], ast.FunctionDef) or \
+            not (isinstance(stmts[1], ast.Return) and isinstance(
+                stmts[1].value, ast.Name) and
+                stmts[1].value.id == stmts[0].name):
+        return None
+    w = stmts[0]
+    a = w.args
+    if a.args or a.posonlyargs or a.kwonlyargs or a.vararg is None or \
+            a.kwarg is None:
+        return None
+    va, kw = a.vararg.arg, a.kwarg.arg
+
+    def is_forward(r):
+        c = r.value
+        return isinstance(c, ast.Call) and isinstance(c.func, ast.Name) \
+            and c.func.id == fparam and len(c.args) == 1 and isinstance(
+                c.args[0], ast.Starred) and isinstance(
+                c.args[0].value, ast.Name) and c.args[0].value.id == va \
+            and len(c.keywords) == 1 and c.keywords[0].arg is None and \
+            isinstance(c.keywords[0].value, ast.Name) and \
+            c.keywords[0].value.id == kw
+    forwards = [r for r in _m.walk_shallow(w) if isinstance(r, ast.Return)
+                and r.value is not None and is_forward(r)]
+    uses = [n for st in w.body for n in ast.walk(st)
+            if isinstance(n, ast.Name) and n.id in (fparam, va, kw)]
+    if len(forwards) != 1 or len(uses) != 3:
+        return None
+    wbody = copy.deepcopy(_m.strip_docstring(w.body))
+    locs = _m.local_names_of(w) - {va, kw}
+
+    class L(ast.NodeTransformer):
+        def visit_Name(self, n):
+            if n.id in locs:
+                return ast.copy_location(ast.Name(
+                    id='_d%d_%s' % (level, n.id), ctx=n.ctx), n)
+            return n
+
+        def visit_ExceptHandler(self, n):
+            self.generic_visit(n)
+            if n.name in locs:
+                n.name = '_d%d_%s' % (level, n.name)
+            return n
+    wbody = [L().visit(st) for st in wbody]
+
+    def splice(stmts):
+        out = []
+        for st in stmts:
+            if isinstance(st, ast.Return) and st.value is not None and \
+                    is_forward(st):
+                out.extend(body)
+                continue
+            for fld in ('body', 'orelse', 'finalbody'):
+                sub = getattr(st, fld, None)
+                if isinstance(sub, list) and sub and isinstance(
+                        sub[0], ast.stmt) and not isinstance(
+                        st, (ast.FunctionDef, ast.ClassDef)):
+                    setattr(st, fld, splice(sub))
+            for hd in getattr(st, 'handlers', []):
+                hd.body = splice(hd.body)
+            out.append(st)
+        return out
+    return splice(wbody)
+
+
 def inline_tail_calls(repo, fi, depth=2):
     """A copy of fi whose `return self.helper(a, b)` / `return _helper(a,
     b)` statements are replaced by the helper's body (parameters replaced
@@ -509,7 +593,20 @@ def inline_tail_calls(repo, fi, depth=2):
                for n in _m.walk_shallow(h.node)):
             return None
         env = dict(zip(ps, actual))
-        locs = _m.local_names_of(h.node) - set(ps)
+        # a parameter the helper re-binds is a local initialised with the
+        # argument
+        rebound = {n.id for n in _m.walk_shallow(h.node)
+                   if isinstance(n, ast.Name) and n.id in env and
+                   isinstance(n.ctx, (ast.Store, ast.Del))}
+        prologue = []
+        for q in ps:
+            if q in rebound:
+                prologue.append(ast.Assign(
+                    targets=[ast.Name(id='_h%d_%s' % (level, q),
+                                      ctx=ast.Store())],
+                    value=copy.deepcopy(env.pop(q)), lineno=ret.lineno,
+                    col_offset=ret.col_offset))
+        locs = (_m.local_names_of(h.node) - set(ps)) | rebound
 
         class R(ast.NodeTransformer):
             def visit_Name(self, n):
@@ -519,13 +616,17 @@ def inline_tail_calls(repo, fi, depth=2):
                     return ast.copy_location(ast.Name(
                         id='_h%d_%s' % (level, n.id), ctx=n.ctx), n)
                 return n
-        # a parameter the helper re-binds cannot be substituted
-        for n in _m.walk_shallow(h.node):
-            if isinstance(n, ast.Name) and n.id in env and isinstance(
-                    n.ctx, (ast.Store, ast.Del)):
+        body = prologue + [R().visit(copy.deepcopy(st))
+                           for st in _m.strip_docstring(h.node.body)]
+        # decorators that wrap the helper in `def wrapper(*a, **k): ...
+        # return func(*a, **k) ...`: the wrapper's statements surround the
+        # helper's body
+        for d in reversed(h.node.decorator_list):
+            if _m.norm(d) in ('staticmethod', 'classmethod'):
                 return None
-        body = [R().visit(copy.deepcopy(st))
-                for st in _m.strip_docstring(h.node.body)]
+            body = _wrap_in_decorator(repo, h.module, d, body, level)
+            if body is None:
+                return None
         out = []
         for st in body:
             out.extend(rewrite([st], level + 1))
